@@ -16,15 +16,17 @@
 
    c01_scope oneofs e s: all of int, float, string, bool, pattern, any, both enums, list, map, map-based object,
    reference, scope, nested in any way through scopes / namespaces; with oneofs = true also one-of (int or string keys,
-   members objects / references / scopes) whose discriminator is NOT inlined, under the extra hypothesis any_clean n
-   (homogeneous []any, map[any]any keyed by int64 only or string only).  That hypothesis is NECESSARY: a finding of
-   this proof, C01_roundtrip_oneof_any_refuted - OneOf.Validate / Serialize run the member's ValidateCompatibility
-   on the data and AnySchema's is stricter than its Unserialize; reproduced on the Go code.
+   members objects / references / scopes) whose discriminator is not inlined, or inlined with a plain type in every
+   member (disc_plain: int / int enum without units, string, un-named string enum), under the extra hypothesis
+   any_clean n (homogeneous []any, map[any]any keyed by int64 only or string only).  That hypothesis is NECESSARY: a
+   finding of this proof, C01_roundtrip_oneof_any_refuted - OneOf.Validate / Serialize run the member's
+   ValidateCompatibility on the data and AnySchema's is stricter than its Unserialize; reproduced on the Go code.
 
-   STILL PARTIAL: one-of with an INLINED discriminator is outside c01_scope (the discriminator property re-reads the
-   raw discriminator with its own units / named type: C01_roundtrip_inlined_named_refuted shows the full statement is
-   false there too, reproduced on the Go code); struct-mapped objects are Schema/XOps.v (C01 of that model is another
-   work package).  The old C01_roundtrip_partial (scalars and lists, hypothesis-free apart from ints_in_range) stays. *)
+   STILL PARTIAL: a one-of whose INLINED discriminator property has units or a named string type is outside c01_scope:
+   the property re-reads the raw discriminator in its own way, and C01_roundtrip_inlined_named_refuted shows the full
+   statement is false there (a second finding, reproduced on the Go code); struct-mapped objects are Schema/XOps.v
+   (C01 of that model is another work package).  The earlier C01_roundtrip_partial (scalars and lists, no hypothesis
+   besides ints_in_range) stays. *)
 From Verif Require Import Base.Prelude Base.Str Base.Float Base.GoVal
   Schema.Regex Schema.Units Schema.Syntax Schema.Ops Schema.Cbor Schema.Wf Schema.SpecRT Schema.C01Spec
   Proofs.OpsLemmas Proofs.C01Round Proofs.CborNorm Proofs.C01Base Proofs.C01Wire Proofs.C01Thm.
@@ -71,7 +73,7 @@ Print Assumptions C01_roundtrip_oneof_any_refuted.
 
 (* outside c01_scope the full statement is false: an inlined discriminator of a named string type (FINDING) *)
 Theorem C01_roundtrip_inlined_named_refuted :
-  exists n, wf_schema c01_env0 c01_inl_schema = true
+  exists n, wf_schema c01_env0 c01_inl_schema = true /\ c01_scope true c01_env0 c01_inl_schema = false
     /\ distinct_in [] c01_nopu 6 c01_env0 c01_inl_schema c01_inl_raw = true
     /\ unser [] c01_nopu 6 c01_env0 c01_inl_schema c01_inl_raw = Ok n /\ ints_in_range n = true /\ any_clean n = true
     /\ forall f', validate [] c01_nopu f' c01_env0 c01_inl_schema n <> Ok tt.
@@ -156,6 +158,12 @@ Example C01_roundtrip_example :
   exists n, unser c01_ex_words c01_nopu 8 c01_env0 c01_ex_schema c01_ex_raw = Ok n
             /\ roundtrips_strong c01_ex_words c01_nopu c01_env0 c01_ex_schema n 16.
 Proof. exact roundtrip_full_example. Qed.
+(* a one-of with an INLINED string discriminator declared by its members (one reached through a reference), under a
+   property of a scope's root object; the raw discriminator is the number 7 *)
+Example C01_roundtrip_inlined_example :
+  exists n, unser [] c01_nopu 9 c01_env0 c01_ex2_schema c01_ex2_raw = Ok n
+            /\ roundtrips_strong [] c01_nopu c01_env0 c01_ex2_schema n 18.
+Proof. exact roundtrip_inlined_example. Qed.
 (* an integer-keyed one-of selected by the numeric string "1", member with an int and an `any` property *)
 Example C01_roundtrip_oneof_example :
   exists n, unser [] c01_nopu 8 c01_env0 c01_ex1_schema c01_ex1_raw = Ok n
